@@ -33,11 +33,14 @@ import OVM.IO.Ovmb.RoundTripWriterLayout
   **The writer's bytes conform to the format description**: `writer_bytes_permitted` — for every well-formed `F`,
   `Encodes (encode F) F` (`ValidLayout (writerLayout F) F` and `encodeWith (writerLayout F) F = encode F`;
   OVM/IO/Ovmb/RoundTripWriterLayout.lean).
+  **Permitted encodings into tetrahedral / hexahedral targets or with topology check**:
+  `permitted_roundtrip_ordered` — every valid layout that writes face spans after all edges and cell spans after all
+  faces (`topoOrdered`), for every configuration with `Accepts cfg F`; `permitted_roundtrip_admitted` — any valid
+  layout, given acceptance of each span against the edges / faces read so far (`AdmAll`).
   NOT a theorem here (evaluated by the judge on every generated mesh and layout, tools/props/io_ovmb.py):
-  permitted encodings other than the writer's read into tetrahedral / hexahedral targets or with topology check
-  (`Accepts` is stated for whole files, a layout may interleave faces and cells, so acceptance of a face is
-  evaluated against a prefix of the edges); the writer's own bytes are covered for every accepting target by
-  `writer_roundtrip`.
+  deriving `AdmAll` from `Accepts` for layouts that interleave edge, face and cell spans (acceptance of a face then
+  has to be transported from the full edge list to a prefix; the hexahedral ordering oracle sees the face list
+  read so far).
 -/
 namespace OVM.Props.C06
 open OVM.Ovmb OVM.Gen.Ovmb Dec
@@ -55,6 +58,23 @@ theorem permitted_roundtrip : RoundtripStatement := by
   intro cfg F bytes hwf ⟨L, hval, hb⟩ ⟨hk, ht⟩ hsize
   subst hb
   exact decode_encodeWith cfg F hk ht L hwf hval hsize
+
+/-- **permitted encodings into any accepting target** (tetrahedral / hexahedral mesh types, topology check on): a
+    valid layout that writes its topology in dependency order (`topoOrdered`: face spans after all edges, cell
+    spans after all edges and faces; spans may be split, everything else goes anywhere) reads to the same mesh
+    for every reading configuration that accepts the file's faces and cells as written -/
+theorem permitted_roundtrip_ordered (cfg : Cfg) (F : File) (L : Layout) (hwf : WFFile F = true)
+    (hval : ValidLayout L F = true) (hsize : (encodeWith L F).length < 2 ^ 64) (hacc : Accepts cfg F)
+    (hord : topoOrdered F {} L.pieces = true) : decode cfg (encodeWith L F) = .ok F :=
+  decode_encodeWith_ordered cfg F L hwf hval hsize hacc hord
+
+/-- the general form: any valid layout, any target that can hold the topology type and accepts every face / cell
+    span at the point where the layout has it read (`AdmAll`: acceptance given the edges / faces read so far) -/
+theorem permitted_roundtrip_admitted (cfg : Cfg) (F : File) (L : Layout) (hwf : WFFile F = true)
+    (hval : ValidLayout L F = true) (hsize : (encodeWith L F).length < 2 ^ 64)
+    (htet : cfg.kind = .tet → F.topo = topoTypeTetrahedral) (hhex : cfg.kind = .hex → F.topo = topoTypeHexahedral)
+    (hadm : AdmAll cfg F {} L.pieces) : decode cfg (encodeWith L F) = .ok F :=
+  decode_encodeWith_adm cfg F L hwf hval hsize htet hhex hadm
 
 /-- **the bytes the writer produces are one of the encodings the format description permits** -/
 theorem writer_bytes_permitted (F : File) (hwf : WFFile F = true) : Encodes (encode F) F :=
@@ -152,6 +172,9 @@ example : Encodes (encode Example.tetFile) Example.tetFile := writer_bytes_permi
 example : decode Example.polyCfg (encodeWith Example.altLayout Example.tetFile) = .ok Example.tetFile :=
   permitted_roundtrip _ _ _ Example.tetFile_wf ⟨Example.altLayout, Example.altLayout_valid, rfl⟩ ⟨rfl, rfl⟩
     (by rw [Example.altLayout_length]; decide)
+example : decode Example.tetCfg (encodeWith Example.altLayout Example.tetFile) = .ok Example.tetFile :=
+  permitted_roundtrip_ordered _ _ _ Example.tetFile_wf Example.altLayout_valid
+    (by rw [Example.altLayout_length]; decide) Example.tetFile_accepts (by decide)
 example : (encodeWith Example.altLayout Example.tetFile).length ≠ (encode Example.tetFile).length := by
   rw [Example.altLayout_length, Example.tetFile_length]; decide
 
